@@ -213,6 +213,34 @@ theorem fetch_recentLast_stuck_forever_old (fuel : Nat) :
     simp only [runFetchOld, h1, h2, h3, List.flatten_cons, hs.1, hs.2, List.append_nil]
     simp
 
+/-- a segment request that advertises [6,9] although its blocks lie in [1,4] (ill-formed: a block outside the
+time range of its segment), behind the request [0,5] {0,5} -/
+def illFormedWitness : List Seg :=
+  [ { start := 0, stop := 5, blocks := [{ id := 0, low := 0, high := 5, recs := [(0, 0), (1, 5)] }] },
+    { start := 6, stop := 9, blocks := [{ id := 1, low := 1, high := 4, recs := [(2, 4)] },
+                                        { id := 2, low := 2, high := 2, recs := [] }] } ]
+
+/-- Well-formedness IS needed for the order (it is not needed for EOF): on `illFormedWitness`, oldest first with
+maxBlocks = 1, the record with timestamp 4 is released after the one with timestamp 5.  (Before the repair this
+run never ended — `releasedOld` stays at [0, 5] and EOF is not reached; a segment whose blocks lie outside the
+range it advertises is scheduled too late in either version, the last round only hands out what was kept
+back.) -/
+theorem fetch_released_sorted_needs_wellformed :
+    ¬ ∀ (m : Mode) (segs : List Seg) (maxBlocks fuel : Nat),
+        (released m maxBlocks fuel segs).Pairwise (fun a b => m.before b.2 a.2 = false) := by
+  intro h
+  have h1 := h .recentLast illFormedWitness 1 (fuelBound illFormedWitness)
+  have h2 : released .recentLast 1 (fuelBound illFormedWitness) illFormedWitness = [(0, 0), (1, 5), (2, 4)] := by
+    decide +kernel
+  rw [h2] at h1
+  revert h1
+  decide
+
+example : reachedEOF .recentLast 1 (fuelBound illFormedWitness) illFormedWitness = true ∧
+    reachedEOFOld .recentLast 1 (fuelBound illFormedWitness) illFormedWitness = false ∧
+    releasedOld .recentLast 1 (fuelBound illFormedWitness) illFormedWitness = [(0, 0), (1, 5)] := by
+  decide +kernel
+
 /-- C05.2c everything together (both modes): after `fuelBound` Fetch calls the run is at EOF and has released
 exactly the matching records, in the order of the mode. -/
 theorem fetch_complete (m : Mode) (segs : List Seg) (maxBlocks : Nat) (hwf : WellFormed segs)
